@@ -1007,6 +1007,12 @@ example : ([[.int 1, .str "x"]] : List Row).Sublist c15L ∧ ([[.int 2, .str "y"
   C15.joinOn_semi_anti_partition c15Cond 2 2 c15L c15R [[.int 1, .str "x"]] [[.int 2, .str "y"]]
     (by decide +kernel) (by decide +kernel)
 
+-- NONVACUOUS: PysparklingVerif.C15.joinOn_is_nested_loop
+/-- the same full outer join: its rows are the nested-loop reference -/
+example : ([[.int 1, .str "x", .int 1, .dbl 10], [.int 2, .str "y", .null, .null], [.null, .null, .int 4, .dbl 40]] : List Row) =
+    C15.joinOnSpec .full c15Cond 2 2 c15L c15R :=
+  C15.joinOn_is_nested_loop .full c15Cond 2 2 c15L c15R _ (by decide +kernel)
+
 -- (inner premises of C15.sources_consistent: a successful createDataFrame, a positive step)
 example : (create ["a", "b"] [[.int 1, .null], [.int 2, .str "x"]]).toOption.isSome = true ∧ 0 < 3 := by decide +kernel
 
@@ -1641,6 +1647,7 @@ end EquivC11
 -- NO-HYPOTHESES: PysparklingVerif.C15.rows_source_consistent
 -- NO-HYPOTHESES: PysparklingVerif.C15.rows_source_old_code
 -- NO-HYPOTHESES: PysparklingVerif.C15.joinOn_old_code
+-- NO-HYPOTHESES: PysparklingVerif.C15.joinOn_defined
 -- NO-HYPOTHESES: PysparklingVerif.Extracted.C01.aggregate_eq
 -- NO-HYPOTHESES: PysparklingVerif.Extracted.C01.fold_eq
 -- NO-HYPOTHESES: PysparklingVerif.Extracted.C01.count_eq
